@@ -63,12 +63,14 @@ pub struct Dec {
     pub bad: u32,
     pub ext: usize,
     pub used: usize,
+    /// FlexVec only: position where the slot of the next pushed item would start
+    pub aux: usize,
     pub c: Canon,
 }
 
 impl Dec {
     pub const fn new() -> Self {
-        Dec { short: false, bad: 0, ext: 0, used: 0, c: Canon::new() }
+        Dec { short: false, bad: 0, ext: 0, used: 0, aux: 0, c: Canon::new() }
     }
     pub fn ok(&self) -> bool {
         !self.short && self.bad == 0
